@@ -548,7 +548,7 @@ func (y *c18L2Sys) Step(s *c18L2State, l engine.Letter) (*c18L2State, string, *e
 		ctx, _ := s.ctx.CacheContext()
 		c.ctx = ctx
 		s.w.K.ExecutorChangePlans = world.ClonePlans(s.plans)
-		err := s.w.K.RegisterExecutorChangePlan(1, uint64(ctx.BlockHeight()), valOf("o3"), "m", pubKeyJSON(s.w, "k3"), "i", []string{world.Addr("e2").String()})
+		err := s.w.K.RegisterExecutorChangePlan(1, uint64(ctx.BlockHeight()), valOf("o3"), "m", pubKeyJSON(s.w, "k3"), "i", []string{world.Addr("e2").String(), world.Addr("e3").String(), world.Addr("e1").String()})
 		c.plans = world.ClonePlans(s.w.K.ExecutorChangePlans)
 		s.w.K.ExecutorChangePlans = map[uint64]opchildtypes.ExecutorChangePlan{}
 		if err != nil {
